@@ -291,7 +291,10 @@ func (server *Server) receive(conn net.Conn, tlsState *tls.ConnectionState) erro
 		}
 	}
 
-	server.AddConn(handlerConn)
+	if !server.addConnIfRunning(handlerConn) {
+		// The server is being stopped: the connection was accepted too late.
+		return nil
+	}
 	defer func() {
 		server.RemoveConn(handlerConn)
 	}()
